@@ -159,6 +159,29 @@ def run (w : Nat) (decodable : Frame → Bool) : State → List Arrival → Stat
 /-- the receptions still waiting in the cache -/
 def pending (s : State) : List Arrival := (s.cache.map (·.2)).flatten
 
+/-! ### decode1090's inline copy (crates/decode1090/src/main.rs:96-160)
+
+The same loop body over the lines of a file (`timestamp_ms + options.deduplication` in u128), then
+`while let Some(Reverse((_curtime, frame))) = expiration_heap.pop()` flushes whatever is left, in
+heap order.  jet1090's `deduplicate_messages` has no such flush: what is pending when the input
+channel closes is dropped with the task. -/
+
+/-- the flush at end of file: every remaining group, in the order the heap yields them -/
+def flush : Nat → State → List Group
+  | 0, _ => []
+  | n + 1, s =>
+    match popMin s.heap with
+    | none => []
+    | some (k, h) =>
+      match remove s.cache k.2 with
+      | none => flush n ⟨s.cache, h⟩
+      | some (ms, c) => (k.2, ms) :: flush n ⟨c, h⟩
+
+/-- a whole file: the records written -/
+def runFlush (w : Nat) (decodable : Frame → Bool) (hist : List Arrival) : List Record :=
+  let r := run w decodable init hist
+  r.2 ++ (flush r.1.heap.length r.1).flatMap (emit decodable)
+
 /-! ### The same with Rust's panic sites
 
 Two operations of the loop body can panic: `timestamp_ms + dedup_threshold as u128` (u128 overflow,
